@@ -13,18 +13,25 @@
 EXTENDS Constraints, Json, IOUtils
 Recs == ndJsonDeserialize(IOEnv.QV_RECS)
 NR == Len(Recs)
-VARIABLES c, ph, x
-vars == <<c, ph, x>>
-Init == c = 0 /\ ph = 0 /\ x = {}
-Next == \/ ph = 0 /\ ph' = 1 /\ c' \in 1..16 /\ x' = x
-        \/ ph = 1 /\ ph' = 2 /\ c' \in {i \in 1..NR : i % 16 = c % 16} /\ x' = x
-        \/ ph = 2 /\ ph' = 3 /\ c' = c /\ x' \in SUBSET ToSet(Recs[c].X)
-Spec == Init /\ [][Next]_vars
+VARIABLES c, ph, x, k      \* k: polynomials of the chosen record's scenario, canonicalised once and carried in the state
+vars == <<c, ph, x, k>>
 R == Recs[c]
-\* per-record polynomials, evaluated once
-FOf == TLCEval([i \in 1..NR |-> Sub(FromRaw(Recs[i].spin, Recs[i].after), FromRaw(Recs[i].spin, Recs[i].before))])
-POf == TLCEval([i \in 1..NR |-> FromRaw(Recs[i].spin, Recs[i].P)])
-OpsOf == TLCEval([i \in 1..NR |-> [q \in 1..Len(Recs[i].ops) |-> FromRawB(Recs[i].ops[q])]])
+FDiff(r) == Sub(FromRaw(r.spin, r.after), FromRaw(r.spin, r.before))
+\* the records of the same scenario (same model) as record i
+ScenOf(i) == {j \in 1..NR : Recs[j].scen = Recs[i].scen}
+Cache(i) == [f |-> [j \in ScenOf(i) |-> FDiff(Recs[j])],
+             p |-> [j \in ScenOf(i) |-> FromRaw(Recs[j].spin, Recs[j].P)],
+             ops |-> [j \in ScenOf(i) |-> [q \in 1..Len(Recs[j].ops) |-> FromRawB(Recs[j].ops[q])]],
+             ga |-> [j \in ScenOf(i) |-> FromRawB(Recs[j].ga)]]
+NoCache == [f |-> << >>, p |-> << >>, ops |-> << >>, ga |-> << >>]
+Init == c = 0 /\ ph = 0 /\ x = {} /\ k = NoCache
+Next == \/ ph = 0 /\ ph' = 1 /\ c' \in 1..16 /\ UNCHANGED <<x, k>>
+        \/ ph = 1 /\ ph' = 2 /\ x' = x /\ \E i \in {j \in 1..NR : j % 16 = c % 16} : c' = i /\ k' = Cache(i)
+        \/ ph = 2 /\ ph' = 3 /\ c' = c /\ k' = k /\ x' \in SUBSET ToSet(Recs[c].X)
+Spec == Init /\ [][Next]_vars
+FOf == k.f
+POf == k.p
+OpsOf == k.ops
 F == FOf[c]
 XS == ToSet(R.X)
 AncOf(i) == VarsOf(FOf[i]) \ ToSet(Recs[i].X)
@@ -43,10 +50,10 @@ ArgUnchanged == Clause("ArgUnchanged", ~Case \/ R.unchanged)
 \* not an ancilla of an earlier constraint on the same model
 AncillaNamesFresh == Clause("AncillaNamesFresh", ~(Case /\ Good) \/
     /\ AncOf(c) \subseteq ToSet(R.anc_labels_after) \ ToSet(R.anc_labels_before)
-    /\ \A i \in 1..NR : (i # c /\ Recs[i].scen = R.scen /\ Recs[i].raised = "") => AncOf(i) \cap AncOf(c) = {})
+    /\ \A i \in ScenOf(c) : (i # c /\ Recs[i].raised = "") => AncOf(i) \cap AncOf(c) = {})
 \* num_ancillas covers every ancilla present (names __a<k> have k < num_ancillas; the indices are parsed by the harness)
 NumAncillasCovers == Clause("NumAncillasCovers", ~(Case /\ Good) \/
-    (R.anc_after >= R.anc_before /\ \A k \in ToSet(R.anc_indices_after) : k < R.anc_after))
+    (R.anc_after >= R.anc_before /\ \A ai \in ToSet(R.anc_indices_after) : ai < R.anc_after))
 \* the constraint is recorded under its relation, as the polynomial that was passed
 ConstraintRecorded == Clause("ConstraintRecorded", ~(Case /\ Good /\ IsCmp) \/
     \E q \in 1..Len(R.cons) : R.cons[q][1] = R.rel /\ FromRaw(R.spin, R.cons[q][2]) = POf[c])
@@ -55,7 +62,7 @@ GateNoAncilla == Clause("GateNoAncilla", ~(Case /\ Good /\ IsGate) \/ (VarsOf(F)
 A == AncOf(c)
 Vals == {Eval(R.spin, F, x \cup a) : a \in SUBSET A}
 CmpHolds == Holds(R.rel, Eval(R.spin, POf[c], x))
-GHolds == GateHolds(R.gate, R.geq, IF R.geq THEN FromRawB(R.ga) ELSE Zero, OpsOf[c], x)
+GHolds == GateHolds(R.gate, R.geq, k.ga[c], OpsOf[c], x)
 HoldsHere == IF IsCmp THEN CmpHolds ELSE GHolds
 NonNeg == Clause("NonNeg", ~(Point /\ Good) \/ \A v \in Vals : v >= 0)
 ZeroWhenHolds == Clause("ZeroWhenHolds", ~(Point /\ Good) \/ R.warned_unsat \/ (HoldsHere => 0 \in Vals))
@@ -64,8 +71,8 @@ LamWhenViolated == Clause("LamWhenViolated", ~(Point /\ Good) \/ R.warned_unsat 
 \* (judged from the constraints that were PASSED, not from what the library recorded)
 HoldsRec(i) == LET r == Recs[i] IN
                IF r.mode = "cmp" THEN Holds(r.rel, Eval(r.spin, POf[i], x))
-               ELSE GateHolds(r.gate, r.geq, IF r.geq THEN FromRawB(r.ga) ELSE Zero, OpsOf[i], x)
+               ELSE GateHolds(r.gate, r.geq, k.ga[i], OpsOf[i], x)
 ValidAt == LET q == CHOOSE q \in 1..Len(R.valid) : ToSet(R.valid[q][1]) = x IN R.valid[q][2]
 ValidIffHolds == Clause("ValidIffHolds", ~(Point /\ Good /\ R.valid_complete) \/
-    (ValidAt = \A i \in 1..NR : (Recs[i].scen = R.scen /\ Recs[i].step <= R.step /\ Recs[i].raised = "") => HoldsRec(i)))
+    (ValidAt = \A i \in ScenOf(c) : (Recs[i].step <= R.step /\ Recs[i].raised = "") => HoldsRec(i)))
 =============================================================================
